@@ -22,7 +22,7 @@ func TestMain(m *testing.M) {
 		Property: "C12", Level: "exploration",
 		Rule: "rapid draws a source trie (0..20 keys over prefix-sharing 32-byte keys; root shape forced across branch / shared-prefix short node / single entry / empty; in memory, committed at a drawn collapse level, or reloaded from storage), a requested key set of size 0..25 (present keys, absent keys diverging at every depth, duplicates; both sides of the >10 parallel-collection threshold), and a follow-up sequence of updates, deletes and inserts restricted to requested keys, mirrored on the source and on the trie rebuilt from the export. " +
 			"Oracle: Deserialize(GetPath(keys)) succeeds on a fresh storage-less trie; Root()/Weight() equal the source's and the independent reference's; after each mirrored operation both tries report the same success/failure and equal Root()/Weight(), which equal the reference for the updated model. " +
-			"A separate large case exports every key of a 68 000-key trie (more than 2^17 exported nodes), 3000 and 9 keys of it, imports each and mirrors an update. The source is sometimes taken through value and weight-only updates after its hashes were computed. Non-trivial = >=11 requested keys on a non-branch root, or a delete of a requested key whose sibling was exported as an embedded short node or a hash reference, or an absent requested key inserted later; distinct = distinct (content, request, follow-ups).",
+			"A separate large case exports every key of a 68 000-key trie (more than 2^17 exported nodes), 3000 and 9 keys of it, imports each and mirrors an update. The source is sometimes taken through further value updates after its hashes were computed. Non-trivial = >=11 requested keys on a non-branch root, or a delete of a requested key whose sibling was exported as an embedded short node or a hash reference, or an absent requested key inserted later; distinct = distinct (content, request, follow-ups).",
 		Assumptions: []string{"the source is exported only in a clean state (GetPath reads hashes, which clears dirty flags)", "storage is internal/memkv"},
 	})
 	ev.Main(m)
@@ -81,7 +81,6 @@ func run(rt *rapid.T) {
 		rt.Fatalf("%s\nsource history: %s", fmt.Sprintf(f, a...), src.History())
 	})
 	counter := 0
-	src.RT = rt
 	for i, k := range present {
 		src.Update(k, wmkit.GenValue(rt, i, &counter, true))
 	}
@@ -90,18 +89,14 @@ func run(rt *rapid.T) {
 		level = gen.Pick(rt, []int{0, 1, 2, 3, 64}, "level")
 		src.Commit(level)
 	}
-	// the source was reached by a history: value and weight-only updates of its keys after hashes were computed
+	// the source was reached by a history: updates of its keys after hashes were computed
 	if len(present) > 0 && gen.Chance(rt, 40, "churn") {
 		if mode == "memory" {
 			_ = src.T.Root()
 		}
 		for i := gen.Uniform(rt, 1, 3, "nchurn"); i > 0; i-- {
 			ki := gen.Uniform(rt, 0, len(present)-1, "churnki")
-			if e, ok := src.Model[string(present[ki])]; ok && gen.Chance(rt, 50, "churnw") {
-				src.Reweigh(e, e.Weight+uint64(gen.Uniform(rt, 1, 5, "churndw")))
-			} else {
-				src.Update(present[ki], wmkit.GenValue(rt, ki, &counter, true))
-			}
+			src.Update(present[ki], wmkit.GenValue(rt, ki, &counter, true))
 		}
 		if mode != "memory" {
 			src.Commit(level)
@@ -157,17 +152,9 @@ func run(rt *rapid.T) {
 			if live && gen.Chance(rt, 45, "fdel") {
 				val = nil
 				deletedPresent = true
-			} else if live && gen.Chance(rt, 25, "fweight") {
-				// only the weight changes
-				e := src.Model[string(k)]
-				val = append([]byte(nil), e.Value...)
-				w = e.Weight + uint64(gen.Uniform(rt, 1, 5, "fdw"))
 			} else {
 				val = wmkit.GenValue(rt, 99, &counter, true)
 				w = wmkit.WeightOf(val)
-				if gen.Chance(rt, 50, "fdraww") {
-					w = wmkit.GenWeight(rt)
-				}
 				if !live {
 					insertedAbsent = true
 				}
